@@ -12,8 +12,8 @@
    endpoint's own parameters untouched; and that message IDs are the hex of
    exactly 20 fresh bytes of the configured source, for every sequence of
    creations.  The models are compared with the real functions on every run. *)
+From Saml Require Import IdPModel.
 From Saml Require Import Base UrlEnc UrlEncProofs Outbound OutboundProofs OutboundIdP OutboundIdPProofs.
-From Saml Require IdPModel.
 
 (* url.QueryUnescape inverts url.QueryEscape on ALL byte strings *)
 Theorem C12_query_escape_roundtrip : forall s, query_unescape (query_escape s) = Some s.
